@@ -302,6 +302,69 @@ def received_header_rules(ctx, rule="R4"):
              'stored header %s' % B_.describe(hh, 8))
 
 
+def packet_contract_rules(ctx, rule='R4', size=True):
+    """What every user of CRTPPacket takes for granted (the packet class is a dependency of every protocol module; shared with C01,
+    C05, C07, C10, C18): the fields of a received header are decoded the same way for all 256 header bytes; the payload of a new packet
+    is a buffer of its own; payload elements are stored as given (a value that is not a byte raises, it is not masked); the size test
+    looks at the payload as it is now (callers append to pk.data in place); a packet is never false."""
+    m = ctx.model
+    pkc = m.cls(ST, 'CRTPPacket')
+    init = pkc.method('__init__')
+    # 1. header decoding is unconditional: one store each, directly in the body of __init__
+    top = [norm(s.targets[0]) for s in init.node.body if isinstance(s, ast.Assign)]
+    every = [norm(s.targets[0]) for s in walk_own(init.node) if isinstance(s, ast.Assign)]
+    for fld in ('self._port', 'self._channel', 'self.header'):
+        ctx.inst(rule, init, 'decoded-for-every-header:' + fld.split('.')[-1], top.count(fld) == 1 and every.count(fld) == 1,
+                 '%s is stored once, unconditionally (a special case for one header byte changes which callbacks match it); stores: %d, unconditional: %d' %
+                 (fld, every.count(fld), top.count(fld)))
+
+    # 2. the payload buffer of a packet is its own object, wherever it is (re)bound
+    def fresh(v):
+        return isinstance(v, ast.Call) and norm(v.func) in ('bytearray', 'bytes', 'list', 'tuple') or isinstance(v, (ast.List, ast.Tuple))
+    setter = pkc.method('_set_data')
+    dpar = setter.params[1]
+    for f in pkc.methods.values():
+        k_ = 0
+        for s_ in walk_own(f.node):
+            if isinstance(s_, ast.Assign) and any(norm(t) == 'self._data' for t in s_.targets):
+                handed = f is setter and norm(s_.value) == dpar          # the caller's own bytearray, handed over on purpose
+                ctx.inst(rule, f, 'payload-buffer-is-its-own:%d' % k_, fresh(s_.value) or handed,
+                         'self._data = %s: a packet must not share its payload buffer with other packets (class-level or module-level default)' % norm(s_.value), line=s_.lineno)
+                k_ += 1
+    shared = [norm(s_.targets[0]) for s_ in pkc.node.body if isinstance(s_, ast.Assign) and isinstance(s_.value, (ast.Call, ast.List, ast.Dict)) and
+              norm(s_.value.func if isinstance(s_.value, ast.Call) else s_.value) in ('bytearray', 'list', 'dict', '[]', '{}')]
+    ctx.inst(rule, (ST, 'CRTPPacket'), 'no-mutable-class-default', not shared, 'mutable class-level defaults of CRTPPacket: %s' % shared)
+    # 3. payload elements are taken as they are: bytearray(x) raises for a value outside 0..255, nothing is masked or clipped on the way
+    for s_ in walk_own(setter.node):
+        if isinstance(s_, ast.Assign) and norm(s_.targets[0]) == 'self._data' and isinstance(s_.value, ast.Call) and norm(s_.value.func) == 'bytearray':
+            a0 = s_.value.args[0] if s_.value.args else None
+            plain = a0 is not None and len(s_.value.args) == 1 and (norm(a0) == dpar or norm(a0) == "%s.encode('ISO-8859-1')" % dpar)
+            ctx.inst(rule, setter, 'payload-stored-as-given:%s' % norm(a0)[:30], plain,
+                     'bytearray(%s): the elements must reach bytearray() unchanged, so that a value that is not a byte raises instead of being sent wrapped' % norm(a0), line=s_.lineno)
+    # 4. a packet is a packet, also without payload: no __len__ / __bool__ that makes `if pk:` depend on its content
+    falsy = [n_ for n_ in ('__len__', '__bool__') if pkc.has(n_)]
+    ctx.inst(rule, (ST, 'CRTPPacket'), 'packet-is-never-false', not falsy, 'CRTPPacket defines %s: the drivers test `if packet:` for "is there a packet" - one without payload would be dropped' % falsy)
+    if size:
+        packet_size_rules(ctx, rule)
+
+
+def packet_size_rules(ctx, rule='R4'):
+    """is_data_size_valid() looks at the payload as it is at the time of the call (callers build packets with pk.data.append / +=)."""
+    m = ctx.model
+    pkc = m.cls(ST, 'CRTPPacket')
+    init = pkc.method('__init__')
+    chain = {
+        'is_data_size_valid': 'self.available_data_size() >= 0',
+        'available_data_size': 'self.MAX_DATA_SIZE - self.get_data_size()',
+        'get_data_size': 'len(self._data)',
+    }
+    for fn, want in chain.items():
+        f = pkc.method(fn)
+        rets = [norm(s.value) for s in walk_own(f.node) if isinstance(s, ast.Return) and s.value is not None]
+        ctx.inst(rule, f, 'size-chain', rets == [want], '%s returns %s, expected %s' % (fn, rets, want))
+    ctx.inst(rule, (ST, 'CRTPPacket'), 'max-size', fold_in(init, pkc.consts['MAX_DATA_SIZE']) == 30, 'MAX_DATA_SIZE must be 30')
+
+
 def check(ctx):
     m = ctx.model
     oracle = FW.LAYOUT
@@ -487,16 +550,7 @@ def check(ctx):
     ok = all(fact_key('pk.is_data_size_valid()', True) in g.fact_keys_at(n) for n, _ in tx)
     rs = [n for n in g.nodes if n.kind == 'raise' and fact_key('pk.is_data_size_valid()', False) in g.fact_keys_at(n)]
     ctx.inst('R4', spf, 'size-check-before-lock', ok and len(rs) == 1, 'oversize packets must be refused (raise) and never reach the driver')
-    chain = {
-        'is_data_size_valid': 'self.available_data_size() >= 0',
-        'available_data_size': 'self.MAX_DATA_SIZE - self.get_data_size()',
-        'get_data_size': 'len(self._data)',
-    }
-    for fn, want in chain.items():
-        f = pkc.method(fn)
-        rets = [norm(s.value) for s in walk_own(f.node) if isinstance(s, ast.Return) and s.value is not None]
-        ctx.inst('R4', f, 'size-chain', rets == [want], '%s returns %s, expected %s' % (fn, rets, want))
-    ctx.inst('R4', (ST, 'CRTPPacket'), 'max-size', fold_in(init, pkc.consts['MAX_DATA_SIZE']) == 30, 'MAX_DATA_SIZE must be 30')
+    packet_contract_rules(ctx, 'R4')
 
     # ---- R6: orientation codec used by the full-state set-point (shared rule, see C13.R3) ------
     quaternion_rules(ctx, 'R6')
